@@ -75,9 +75,11 @@ def run_case(case):
     prog = case["prog"]
     F = G.features(prog)
     feats = G.feat_list(F)
-    R = worlds.reference(prog, max_worlds=max_worlds(case.get("tier", "quick")))
+    R = worlds.reference(prog, max_worlds=max_worlds(case.get("tier", "quick")), cyc_preds=G.cyclic_preds(prog))
     if R.status == "too_big":
         return skip("reference too big", feats)
+    F = G.refine_with_reference(F, R)
+    feats = G.feat_list(F)
     text = G.to_text(prog)
     o = run_sut(case, text)
     COUNTERS["sut_" + o["kind"]] += 1
